@@ -12,7 +12,7 @@ struct Snapshot { long long written ; std::vector<uint8_t> bytes ; } ;
 static const long long SEEK_MARK = 1ll << 40 ;	// part entry SEEK_MARK + k: sf_seek (k, SEEK_SET) on the write handle (k clipped to the extent)
 
 inline std::string write_partitioned (MemFile &m, const OpenSpec &s, int t, const uint8_t *src, long long N,
-			const std::vector<long long> &part, bool autohdr, std::vector<Snapshot> *snaps, int *updates_done = nullptr, bool rdwr = false, int *rdwr_reads = nullptr)
+			const std::vector<long long> &part, bool autohdr, std::vector<Snapshot> *snaps, int *updates_done = nullptr, bool rdwr = false, int *rdwr_reads = nullptr, const uint8_t *rawsrc = nullptr, int rawbw = 0)
 {	SNDFILE *f = nullptr ;
 	if (rdwr)
 	{	// read/write handle on a new file: a read or a read-pointer seek is slipped in between the last write and each explicit update
@@ -46,8 +46,12 @@ inline std::string write_partitioned (MemFile &m, const OpenSpec &s, int t, cons
 		if (done + fr > N) fr = N - done ;
 		if (fr <= 0) continue ;
 		Block b ((size_t) fr * s.ch * ts) ; memcpy (b.p, src + (size_t) done * s.ch * ts, b.n) ;
-		sf_count_t w = p < 0 ? sf_write_t (f, t, b.p, fr * s.ch) : sf_writef_t (f, t, b.p, fr) ;
-		sf_count_t want = p < 0 ? fr * s.ch : fr ;
+		sf_count_t w, want = p < 0 ? fr * s.ch : fr ;
+		if (rawsrc && rawbw > 0)
+		{	// the audio goes in through sf_write_raw (rawsrc holds the encoded bytes of the whole signal, rawbw bytes per frame)
+			Block rb ((size_t) (fr * rawbw)) ; memcpy (rb.p, rawsrc + (size_t) done * rawbw, rb.n) ; sf_count_t wb = sf_write_raw (f, rb.p, fr * rawbw) ; w = wb == fr * rawbw ? want : wb / rawbw ;
+		}
+		else w = p < 0 ? sf_write_t (f, t, b.p, fr * s.ch) : sf_writef_t (f, t, b.p, fr) ;
 		if (w != want) { std::string d = "short_write: " + std::to_string ((long long) w) + " of " + std::to_string ((long long) want) + " " + sf_err_text (f) ; sf_close (f) ; return d ; }
 		done += fr ; if (done > extent) extent = done ;
 		if (autohdr && snaps) snaps->push_back ({ extent, m.data }) ;
@@ -56,7 +60,8 @@ inline std::string write_partitioned (MemFile &m, const OpenSpec &s, int t, cons
 	{	if (done != extent && sf_seek (f, extent, rdwr ? (SEEK_SET | SFM_WRITE) : SEEK_SET) != extent) { sf_close (f) ; return "write_seek_failed: to extent" ; }
 		long long fr = N - extent ;
 		Block b ((size_t) fr * s.ch * ts) ; memcpy (b.p, src + (size_t) extent * s.ch * ts, b.n) ;
-		if (sf_writef_t (f, t, b.p, fr) != fr) { sf_close (f) ; return "short_write: tail" ; }
+		if (rawsrc && rawbw > 0) { Block rb ((size_t) (fr * rawbw)) ; memcpy (rb.p, rawsrc + (size_t) extent * rawbw, rb.n) ; if (sf_write_raw (f, rb.p, fr * rawbw) != fr * rawbw) { sf_close (f) ; return "short_write: raw tail" ; } }
+		else if (sf_writef_t (f, t, b.p, fr) != fr) { sf_close (f) ; return "short_write: tail" ; }
 	}
 	int rc = sf_close (f) ;
 	if (rc != 0) return "close_failed: " + std::to_string (rc) ;
